@@ -346,7 +346,7 @@ val byte_of : dtype -> datum -> z res
 
 val str_of : dtype -> datum list -> ev list res
 
-val is_chars0 : akind option -> bool
+val is_charp : akind option -> bool
 
 val np_block : jopts -> bool -> dtype -> z list -> datum list -> ev list res
 
